@@ -12,8 +12,48 @@ TRUSTED_BASE = SEARCH_TRUST + ['theorems are stated for well-formed inputs (posi
 SUPPORTS_DEEPEN = True
 
 
+def vacuous_job(job):
+  inst, resolved = job
+  r2 = dict(resolved, geo_ratio_tolerance=1e9, volume_ratio_tolerance=1e9)
+  return {w: (se.run_real(inst, resolved, w, late=True), se.run_real(inst, r2, w, late=True)) for w in ('exhaustive', 'greedy')}
+
+
+def vacuous_constraints(out, tier, model_ok):
+  """'a constraint left unspecified imposes nothing': leaving both ratio tolerances out and setting them so large that
+  every ratio is inside must give the same designs, for both searches"""
+  import multiprocessing as mp
+  res = se.get_results(tier, model_ok=model_ok)
+  jobs, recs = [], []
+  for r in se.iter_results(res):
+    p = r['resolved']
+    if 'geo_ratio_tolerance' in p or 'volume_ratio_tolerance' in p or r['inst'].get('min_corr_probe'):
+      continue
+    if not (r['exh'].get('result') or r['greedy'].get('result')):
+      continue
+    jobs.append((r['inst'], p)); recs.append(r)
+    if len(jobs) >= (24 if tier == 'quick' else 400):
+      break
+  if not jobs:
+    return
+  with mp.Pool(min(16, len(jobs))) as pool:
+    outs = pool.map(vacuous_job, jobs)
+  for r, o in zip(recs, outs):
+    for w in ('exhaustive', 'greedy'):
+      a, b = o[w]
+      ka = [(d['T'], d['C'], d['score']) for d in a.get('result', [])] if 'result' in a else ('err', a.get('error'))
+      kb = [(d['T'], d['C'], d['score']) for d in b.get('result', [])] if 'result' in b else ('err', b.get('error'))
+      if repr(ka) != repr(kb):
+        f = se.facts_of(r, w)
+        f['symptom'] = 'unspecified-constraint-matters'
+        out.oracle_violation(f, se.case_of(r, 'exh' if w == 'exhaustive' else 'greedy'),
+                             f'{w} search: with both ratio tolerances unspecified the result is {str(ka)[:160]}, with tolerances of 1e9 '
+                             f'(every ratio inside) it is {str(kb)[:160]}')
+  out.extra['vacuous_tolerance_pairs'] = len(jobs)
+
+
 def run(out, tier, model_ok=True, deepen=False):
-  out.rule = 'oracle: every returned design is re-checked against all specified constraints from the raw frame (shares recomputed by the harness; either share reading accepted; bounds inclusive, 1e-9 tolerance); non-trivial = some constraint specified and designs evaluated/returned'
+  vacuous_constraints(out, tier, model_ok)
+  out.rule = 'oracle: every returned design is re-checked against all specified constraints from the raw frame (shares recomputed by the harness; either share reading accepted; bounds inclusive, 1e-9 tolerance); plus paired runs: ratio tolerances unspecified vs vacuously large give the same designs; non-trivial = some constraint specified and designs evaluated/returned'
   run_search_prop(out, PROP, se.judge_c02, tier, model_ok, deepen=deepen)
 
 
